@@ -109,6 +109,7 @@ func (s *session) delete() error {
 	if err != nil {
 		return err
 	}
+	verifSessionGate(s, keys)
 	// Delete ephemerals
 	var deletes []*proto.DeleteRequest
 	s.log.Debug(
@@ -166,7 +167,7 @@ func (s *session) waitForHeartbeats() {
 	heartbeatChannel := s.heartbeatCh
 	s.Unlock()
 	s.log.Debug("Waiting for heartbeats")
-	timeoutTimer := time.NewTimer(s.timeout)
+	timeoutTimer := newSessionTimer(s)
 	defer func() {
 		timeoutTimer.Stop()
 		s.latch.Done()
